@@ -260,9 +260,13 @@ fn leaf_case_fast(ctx: &Ctx, x: u32, c02: bool) {
             }
         }};
     }
-    one!(x, u32, Val::U32, "u32");
-    one!(x as i32, i32, Val::I32, "i32");
-    one!(f32::from_bits(x), f32, |f: f32| Val::F32(f.to_bits()), "f32");
+    if let Err(p) = trap(|| {
+        one!(x, u32, Val::U32, "u32");
+        one!(x as i32, i32, Val::I32, "i32");
+        one!(f32::from_bits(x), f32, |f: f32| Val::F32(f.to_bits()), "f32");
+    }) {
+        ctx.violation("leaf-panic", format!("panic on the 32-bit pattern {x:#x}: {p}"), x as u64, json!({"bits": x}));
+    }
 }
 
 struct TypedRoundTrip<'a> {
